@@ -24,6 +24,7 @@ impl CtrlC {
                 return Err(Error("Ctrl-C error: Ctrl-C signal handler already registered"));
             }
             rt.signal.registered = true;
+            rt.signal.handles_term = cfg!(feature = "termination");
             Ok(CtrlC(()))
         })
     }
